@@ -544,10 +544,26 @@ func c14R7(r *Report) {
 	}
 	r.Fn(gr)
 	var get *ssa.Call
+	isGet := func(c *ssa.Call) bool {
+		cal := c.Call.StaticCallee()
+		return cal != nil && cal.Name() == "Get" && relPkg(cal) == "webseed"
+	}
 	for _, ci := range callsIn(gr) {
-		if c, ok := ci.(*ssa.Call); ok {
-			if cal := c.Call.StaticCallee(); cal != nil && cal.Name() == "Get" && relPkg(cal) == "webseed" {
-				get = c
+		c, ok := ci.(*ssa.Call)
+		if !ok {
+			continue
+		}
+		if isGet(c) {
+			get = c
+			continue
+		}
+		// a helper of package tor that performs the fetch of one file chunk and hands back Get's (n, err)
+		if h := c.Call.StaticCallee(); get == nil && h != nil && h.Blocks != nil && relPkg(h) == "tor" && !c.Call.IsInvoke() && h.Signature.Results().Len() == 2 {
+			for _, ci2 := range callsIn(h) {
+				if c2, ok := ci2.(*ssa.Call); ok && isGet(c2) {
+					r.Fn(h)
+					get = c
+				}
 			}
 		}
 	}
